@@ -12,6 +12,8 @@ import GeoModel.MonoPoly
 import GeoModel.Tiling
 import GeoProofs.Lemmas.C10Earcut
 import GeoProofs.Lemmas.C10Stitch
+import GeoProofs.Lemmas.C10Mono
+import GeoProofs.Props.C19
 import Mathlib.Tactic.NormNum
 
 namespace Geo.Proofs.C10
@@ -111,6 +113,115 @@ theorem stitch_unshared_edge_kept (lines : List Ln) (l : Ln) (h : cnt l lines = 
 
 example : findBoundaryLines (stitchLines [(⟨0,0⟩, ⟨1,0⟩, ⟨1,1⟩), (⟨0,0⟩, ⟨1,1⟩, ⟨0,1⟩)]) =
     [(⟨0,0⟩, ⟨1,0⟩), (⟨1,0⟩, ⟨1,1⟩), (⟨1,1⟩, ⟨0,1⟩), (⟨0,1⟩, ⟨0,0⟩)] := by decide +kernel
+
+/-! ### MonoPoly point location ↔ between the chains -/
+
+/-- [T] outside the bounding box of the chains (where the code returns early) the specification
+does not claim the coordinate either — for arbitrary chains. -/
+theorem spec_outside_of_not_inBounds (m : MonoPoly) (p : Pt) (hb : inBounds m p = false) :
+    specPos m p = .outside := by
+  unfold inBounds at hb
+  cases hr : getBoundingRect (m.top ++ m.bot) with
+  | none =>
+    have h0 : m.top ++ m.bot = [] := (C19.getBoundingRect_none_iff _).1 hr
+    have ht : m.top = [] := (List.append_eq_nil_iff.1 h0).1
+    have hbt : m.bot = [] := (List.append_eq_nil_iff.1 h0).2
+    simp [specPos, onChain, below, above, sideAny, ht, hbt, segs]
+  | some r =>
+    obtain ⟨mn, mx⟩ := r
+    rw [hr] at hb
+    have hbox := (C19.getBoundingRect_bounds _ mn mx hr).1
+    have boxT : ∀ q ∈ m.top, InBox mn mx q := fun q hq => hbox q (List.mem_append_left _ hq)
+    have boxB : ∀ q ∈ m.bot, InBox mn mx q := fun q hq => hbox q (List.mem_append_right _ hq)
+    simp only [rectCoord, Bool.and_eq_false_iff, decide_eq_false_iff_not, not_le, ge_iff_le] at hb
+    rcases hb with ((hx | hy) | hx) | hy
+    · simp [specPos, onChain, below, above, side_x_out boxT (Or.inl hx), side_x_out boxB (Or.inl hx)]
+    · obtain ⟨t1, _⟩ := side_y_low boxT hy
+      obtain ⟨b1, b2⟩ := side_y_low boxB hy
+      simp [specPos, onChain, below, above, t1, b1, b2]
+    · simp [specPos, onChain, below, above, side_x_out boxT (Or.inr hx), side_x_out boxB (Or.inr hx)]
+    · obtain ⟨t1, t2⟩ := side_y_high boxT hy
+      obtain ⟨b1, _⟩ := side_y_high boxB hy
+      simp [specPos, onChain, below, above, t1, t2, b1]
+
+/-- [T] `monoPoly_position_spec`: for chains that are strictly increasing in the lexicographic
+order (vertical segments allowed), share their end points and are ordered at `p` (top above
+bottom), `MonoPoly::coordinate_position` (after the fix) is the between-the-chains
+classification. -/
+theorem monoPoly_position_spec (m : MonoPoly) (p : Pt) (hw : wellFormed m = true)
+    (ho : orderedAt m p = true) : monoPos m p = specPos m p := by
+  rw [monoPos_eq_core]
+  by_cases hb : inBounds m p = true
+  · simp only [hb, if_true]
+    obtain ⟨top, bot⟩ := m
+    simp only [wellFormed, Bool.and_eq_true, decide_eq_true_eq] at hw
+    obtain ⟨⟨⟨⟨⟨hs1, hs2⟩, hl1⟩, hl2⟩, hh⟩, hlast⟩ := hw
+    match top, bot, hl1, hl2 with
+    | a :: b :: t1, a' :: b' :: t2, _, _ =>
+      have ha : a = a' := by simpa using hh
+      subst ha
+      have hl : (a :: b :: t1).getLast (by simp) = (a :: b' :: t2).getLast (by simp) := by
+        have h1 := List.getLast?_eq_some_getLast (l := a :: b :: t1) (by simp)
+        have h2 := List.getLast?_eq_some_getLast (l := a :: b' :: t2) (by simp)
+        rw [h1, h2] at hlast
+        exact Option.some.inj hlast
+      exact core_eq_spec a b t1 b' t2 p hs1 hs2 hl ho
+  · have hb' : inBounds m p = false := by simpa using hb
+    simp only [hb', Bool.false_eq_true, if_false]
+    exact (spec_outside_of_not_inBounds m p hb').symm
+
+/-- [T] `monoPoly_position_iff`: Inside ⇔ strictly below the top chain and strictly above the
+bottom chain; OnBoundary ⇔ on one of the chains; Outside otherwise. -/
+theorem monoPoly_position_iff (m : MonoPoly) (p : Pt) (hw : wellFormed m = true)
+    (ho : orderedAt m p = true) :
+    (monoPos m p = .inside ↔
+      (onChain m.top p = false ∧ onChain m.bot p = false) ∧ below m.top p = true ∧ above m.bot p = true) ∧
+    (monoPos m p = .onBoundary ↔ onChain m.top p = true ∨ onChain m.bot p = true) ∧
+    (monoIntersects m p = true ↔
+      (onChain m.top p = true ∨ onChain m.bot p = true) ∨ (below m.top p = true ∧ above m.bot p = true)) := by
+  unfold monoIntersects
+  rw [monoPoly_position_spec m p hw ho]
+  unfold specPos
+  cases h1 : onChain m.top p <;> cases h2 : onChain m.bot p <;> cases h3 : below m.top p <;>
+    cases h4 : above m.bot p <;> simp
+
+/-- [T] along a lexicographically increasing chain a coordinate is on at most one side: the
+three classes `above` / `onChain` / `below` exclude one another. -/
+theorem chain_side_unique (c : List Pt) (p : Pt) (hs : lexSorted c = true) :
+    ¬ (above c p = true ∧ onChain c p = true) ∧ ¬ (above c p = true ∧ below c p = true) ∧
+    ¬ (onChain c p = true ∧ below c p = true) := by
+  obtain ⟨h1, h2⟩ := sel_spec c p hs
+  unfold above onChain below
+  cases hsel : sel c p with
+  | none => simp [h2 hsel]
+  | some s =>
+    obtain ⟨u, v⟩ := s
+    have := h1 u v hsel
+    simp only [this]
+    cases orient u v p <;> simp
+
+/-- [T] `MonotonicPolygons::intersects` is "some piece does not report Outside". -/
+theorem monotonic_intersects_iff (ms : List MonoPoly) (p : Pt) :
+    monotonicIntersects ms p = true ↔ ∃ m ∈ ms, monoPos m p ≠ .outside := by
+  simp [monotonicIntersects, monoIntersects]
+
+/-- the monotone piece of the L-shaped polygon `(0,2),(0,4),(3,4),(3,0),(1,0),(1,2)` (F7) -/
+def lPiece : MonoPoly := ⟨[⟨0, 2⟩, ⟨0, 4⟩, ⟨3, 4⟩], [⟨0, 2⟩, ⟨1, 2⟩, ⟨3, 0⟩, ⟨3, 4⟩]⟩
+
+/-- [T] `monoPoly_vertical_witness` (F7, reproduced on the real code before the fix): selecting the
+bounding segments by `x` alone (`bounding_segment`, the pinned behaviour) and applying the same
+orientation tests puts `(0,1)` on the boundary of the piece, although the piece is well formed,
+ordered there, and the specification — and the fixed code — say Outside. -/
+theorem monoPoly_vertical_witness :
+    wellFormed lPiece = true ∧ orderedAt lPiece ⟨0, 1⟩ = true ∧
+    (match boundingSegment lPiece 0 with
+      | some ((ts, te), (bs, be)) => (classify ts te bs be ⟨0, 1⟩ ⟨false, 0⟩).result
+      | none => Pos.outside) = .onBoundary ∧
+    specPos lPiece ⟨0, 1⟩ = .outside ∧ monoPos lPiece ⟨0, 1⟩ = .outside := by
+  decide +kernel
+
+example : monoPos lPiece ⟨3, 2⟩ = .onBoundary ∧ monoPos lPiece ⟨2, 2⟩ = .inside ∧
+    monoPos lPiece ⟨0, 3⟩ = .onBoundary := by decide +kernel
 
 /-! ### the tiling checker: what `tiles` establishes -/
 
